@@ -186,6 +186,12 @@ Proof.
   rewrite firstn_app, Nat.sub_diag, firstn_all. cbn. apply app_nil_r.
 Qed.
 
+Lemma slice_mid' {A} (x y z : list A) : slice (x ++ y ++ z) (len x) (len x + len y) = y.
+Proof.
+  unfold slice. rewrite skipz_app_len. replace (len x + len y - len x) with (len y) by lia.
+  unfold firstz, len. rewrite Nat2Z.id, firstn_app, Nat.sub_diag, firstn_all. cbn. apply app_nil_r.
+Qed.
+
 Lemma next_text d l pre t rest : at_input d l pre (t ++ rest) -> intag l = false -> rawtag l = 0 ->
   t <> [] -> Forall (fun c => c <> 60) t -> (rest = [] \/ tag_start rest) ->
   exists l', next no_tmpl l = Ok (TextT, Some (mkSl (len pre) (len t)), l') /\
@@ -992,4 +998,178 @@ Proof.
   replace (len pre + (n - len val)) with (len pre + n - len val) by lia.
   eexists. split; [reflexivity|]. cbn [ltext lattr lz intag rawtag lerr].
   repeat split; first [exact Hit | reflexivity | (do 2 f_equal; lia) | (cbn [skip lx_lower lbuf]; rewrite Zb; reflexivity)].
+Qed.
+
+(* ---- svg / math / xml ------------------------------------------------------------------------------------------------- *)
+Lemma letters_loop_reads z ls rest : reads z (ls ++ rest) -> Forall (fun c => is_letter c = true) ls ->
+  (rest = [] \/ exists c r, rest = c :: r /\ is_letter c = false) -> letters_loop z = Ok (mv z (len ls)).
+Proof.
+  intros Hr Hl Hrest. pose proof (len_nonneg ls). unfold letters_loop.
+  apply (loop_scan _ z (len ls)); [lia| | |eapply fuel_of_enough; [exact Hr|rewrite len_app; pose proof (len_nonneg rest); lia]].
+  - intros i Hi. destruct (peekz_in ls i Hi) as (c & Hc & Hin). rewrite Forall_forall in Hl. specialize (Hl c Hin).
+    unfold letters_body. rewrite pkr_mv0, (reads_pkr z _ i c Hr (peekz_app_l' _ _ _ _ Hc)). cbn [rbind]. rewrite Hl, mv_mv. reflexivity.
+  - unfold letters_body. rewrite pkr_mv0. destruct Hrest as [->|(c & r & -> & Hc)].
+    + rewrite app_nil_r in Hr. destruct (reads_end z ls Hr) as [Hp _]. unfold pkr. rewrite Hp. reflexivity.
+    + rewrite (reads_pkr z _ (len ls) c Hr) by (rewrite peekz_app_r0; apply peekz_cons_0). cbn [rbind]. rewrite Hc. reflexivity.
+Qed.
+
+(* the bytes between the tag name and the end tag: no double quote, no NUL, no "</" *)
+Definition xml_inner (inner : list Z) : Prop :=
+  Forall (fun c => c <> 34 /\ c <> 0) inner /\ forall k, peekz inner k = Some 60 -> peekz inner (k + 1) <> Some 47.
+
+Lemma xml_loop_run raw z inner ename erest :
+  reads z (inner ++ 60 :: 47 :: ename ++ erest) -> xml_inner inner ->
+  Forall (fun c => is_letter c = true) ename -> to_hash (map lower ename) = Ok raw ->
+  (exists c r, erest = c :: r /\ is_letter c = false) -> lstart z <= lpos z ->
+  loop (fuel_of z) (xml_body raw) (z, false) = Ok (inl (mv z (len inner + 2 + len ename))).
+Proof.
+  intros Hr (Hin & Hnls) Hlet Hhash (ce & re & Ee & Hce) Hst.
+  pose proof (len_nonneg inner). pose proof (len_nonneg ename). pose proof (len_nonneg erest).
+  assert (Hlens : len (inner ++ 60 :: 47 :: ename ++ erest) = len inner + 2 + len ename + len erest) by (rewrite len_app, !len_cons, len_app; lia).
+  apply (loop_scan2 _ z false (len inner)); [lia| | |eapply fuel_of_enough; [exact Hr|lia]].
+  - intros i Hi. destruct (peekz_in inner i Hi) as (c & Hc & Hci). rewrite Forall_forall in Hin. destruct (Hin c Hci) as [H34 Hnz].
+    unfold xml_body. rewrite pkr_mv0, (reads_pkr z _ i c Hr (peekz_app_l' _ _ _ _ Hc)). cbn [rbind].
+    replace (c =? 34) with false by (symmetry; apply Z.eqb_neq; exact H34).
+    destruct (c =? 60) eqn:E60.
+    + apply Z.eqb_eq in E60. subst c. cbn [andb negb].
+      (* the next byte is not '/' *)
+      assert (Hnext : exists c1, pkr (mv z i) 1 = Ok c1 /\ c1 <> 47).
+      { destruct (Z.eq_dec (i + 1) (len inner)) as [E|E].
+        - exists 60. split; [|discriminate]. rewrite pkr_mv. apply (reads_pkr z _ (i + 1) 60 Hr). rewrite E, peekz_app_r0. apply peekz_cons_0.
+        - destruct (peekz_in inner (i + 1) ltac:(lia)) as (c1 & Hc1 & _). exists c1. split.
+          + rewrite pkr_mv. apply (reads_pkr z _ (i + 1) c1 Hr), peekz_app_l', Hc1.
+          + intros ->. exact (Hnls i Hc Hc1). }
+      destruct Hnext as (c1 & Hc1 & Hne). rewrite Hc1. cbn [rbind].
+      replace (c1 =? 47) with false by (symmetry; apply Z.eqb_neq; exact Hne). rewrite mv_mv. reflexivity.
+    + cbn [andb rbind]. replace (c =? 0) with false by (symmetry; apply Z.eqb_neq; exact Hnz). rewrite mv_mv. reflexivity.
+  - unfold xml_body. rewrite pkr_mv0, (reads_pkr z _ (len inner) 60 Hr) by (rewrite peekz_app_r0; apply peekz_cons_0). cbn [rbind]. change (60 =? 34) with false. change (60 =? 60) with true. cbn [andb negb].
+    rewrite pkr_mv, (reads_pkr z _ (len inner + 1) 47 Hr) by (rewrite peekz_app_rk by lia; apply peekz_1). cbn [rbind]. change (47 =? 47) with true.
+    pose proof (reads_mv _ _ (len inner + 2) Hr ltac:(lia)) as Hr2.
+    assert (Hsk : skipz (len inner + 2) (inner ++ 60 :: 47 :: ename ++ erest) = ename ++ erest).
+    { replace (inner ++ 60 :: 47 :: ename ++ erest) with ((inner ++ [60; 47]) ++ ename ++ erest) by (rewrite <- app_assoc; reflexivity).
+      replace (len inner + 2) with (len (inner ++ [60; 47])) by (rewrite len_app; reflexivity). apply skipz_app_len. }
+    rewrite Hsk in Hr2. rewrite mv_mv.
+    rewrite (letters_loop_reads _ ename erest Hr2 Hlet) by (right; rewrite Ee; eauto). cbn [rbind].
+    (* the hash of the letters *)
+    unfold hash_lexeme_from. destruct Hr2 as [Hw2 Hrem2].
+    destruct (rem_mv _ (len ename) Hw2) as [_ Hw3]; [rewrite Hrem2, len_app; lia|].
+    rewrite lexeme_from_spec by (exact Hw3 || (unfold mark; cbn [mv lpos lstart]; lia)). cbn [rbind].
+    assert (Hbytes : view_bytes (lbuf (mv (mv z (len inner + 2)) (len ename)))
+                       (mkSl (lstart (mv (mv z (len inner + 2)) (len ename)) + (mark (mv z (len inner)) + 2))
+                             (lpos (mv (mv z (len inner + 2)) (len ename)) - lstart (mv (mv z (len inner + 2)) (len ename)) - (mark (mv z (len inner)) + 2))) = ename).
+    { unfold view_bytes, mark. cbn [so sn mv lbuf lpos lstart].
+      replace (lstart z + (lpos z + len inner - lstart z + 2)) with (lpos z + (len inner + 2)) by lia.
+      replace (lpos z + (len inner + 2) + (lpos z + (len inner + 2) + len ename - lstart z - (lpos z + len inner - lstart z + 2))) with (lpos z + (len inner + 2 + len ename)) by lia.
+      rewrite (reads_slice z _ (len inner + 2) (len inner + 2 + len ename) Hr) by lia.
+      replace (inner ++ 60 :: 47 :: ename ++ erest) with ((inner ++ [60; 47]) ++ ename ++ erest) by (rewrite <- app_assoc; reflexivity).
+      replace (len inner + 2) with (len (inner ++ [60; 47])) by (rewrite len_app; reflexivity). apply slice_mid'. }
+    rewrite Hbytes, Hhash. cbn [rbind]. rewrite Z.eqb_refl. rewrite mv_mv. first [reflexivity | do 3 f_equal; lia].
+Qed.
+
+Lemma xml_close_loop_run z ews rest : reads z (ews ++ 62 :: rest) -> Forall (fun c => c <> 62 /\ c <> 0) ews ->
+  loop (fuel_of z) xml_close_body z = Ok (inl (mv z (len ews + 1))).
+Proof.
+  intros Hr Hb. pose proof (len_nonneg ews).
+  apply (loop_scan _ z (len ews)); [lia| | |eapply fuel_of_enough; [exact Hr|rewrite len_app, len_cons; pose proof (len_nonneg rest); lia]].
+  - intros i Hi. destruct (peekz_in ews i Hi) as (c & Hc & Hin). rewrite Forall_forall in Hb. destruct (Hb c Hin) as [H62 H0'].
+    unfold xml_close_body. rewrite pkr_mv0, (reads_pkr z _ i c Hr (peekz_app_l' _ _ _ _ Hc)). cbn [rbind].
+    replace (c =? 62) with false by (symmetry; apply Z.eqb_neq; exact H62).
+    replace (c =? 0) with false by (symmetry; apply Z.eqb_neq; exact H0'). rewrite mv_mv. reflexivity.
+  - unfold xml_close_body. rewrite pkr_mv0, (reads_pkr z _ (len ews) 62 Hr) by (rewrite peekz_app_r0; apply peekz_cons_0). cbn [rbind].
+    change (62 =? 62) with true. rewrite mv_mv. reflexivity.
+Qed.
+
+(* lower-casing bytes before the cursor does not change what is read *)
+Lemma reads_lower z s v : reads z s -> 0 <= so v -> 0 <= sn v -> so v + sn v <= lpos z -> reads (lx_lower z v) s.
+Proof.
+  intros [Hw Hr] H1 H2 H3. pose proof (lx_wf_len z Hw) as [Hbl _]. pose proof Hw as (_ & Hs & Hp).
+  split; [apply lx_lower_wf; [exact Hw|lia|lia|lia]|].
+  rewrite <- Hr. unfold rem. rewrite (lx_lower_len z v Hw) by lia. unfold lx_lower. cbn [lbuf lpos].
+  apply slice_ext; [lia|rewrite len_lower_view by lia; lia|lia|].
+  intros i Hi. rewrite peekz_lower_view by lia.
+  replace ((so v <=? i) && (i <? so v + sn v)) with false; [reflexivity|].
+  symmetry. apply andb_false_iff. right. apply Z.ltb_ge. lia.
+Qed.
+
+Lemma is_xml_raw h : is_xml_hash h = true -> is_raw_hash h = true.
+Proof.
+  unfold is_xml_hash, is_raw_hash. intros H.
+  apply orb_true_iff in H. destruct H as [H|H]; [apply orb_true_iff in H; destruct H as [H|H]|]; rewrite H; repeat rewrite orb_true_r; reflexivity.
+Qed.
+
+Definition foreign_ty (h : Z) : Z := if h =? html_hash_Svg then SvgT else if h =? html_hash_Math then MathT else XmlT.
+
+(* "<svg" inner "</svg" ews ">" : one token *)
+Lemma next_foreign d l pre name inner ename ews rest h :
+  at_input d l pre (60 :: name ++ inner ++ 60 :: 47 :: ename ++ ews ++ 62 :: rest) -> intag l = false -> rawtag l = 0 ->
+  lerr l = false ->
+  (exists c nm, name = c :: nm /\ is_letter c = true) -> Forall namechar name ->
+  to_hash (map lower name) = Ok h -> to_hash (map lower ename) = Ok h -> is_xml_hash h = true ->
+  (exists c r, inner = c :: r /\ (is_ws c = true \/ c = 62)) -> xml_inner inner ->
+  Forall (fun c => is_letter c = true) ename -> Forall (fun c => is_ws4 c = true) ews ->
+  let n := 1 + len name + len inner + 2 + len ename + len ews + 1 in
+  exists l', next no_tmpl l = Ok (foreign_ty h, Some (mkSl (len pre) n), l') /\
+    ltext l' = Some (mkSl (len pre + 1) (len name)) /\
+    lbuf (lz l') = lower_view (lbuf (lz l)) (mkSl (len pre + 1) (len name)) /\
+    intag l' = false /\ rawtag l' = 0 /\ lerr l' = false.
+Proof.
+  intros Hat Hit Hraw Hle (c & nm & Ename & Hlet) Hname Hh Heh Hxml (ci & ri & Ei & Hci) Hinner Helet Hews n.
+  pose proof (at_input_reads _ _ _ _ Hat) as Hr.
+  pose proof Hat as (Hi & Hcl & Hd & Hp).
+  pose proof (len_nonneg name). pose proof (len_nonneg inner). pose proof (len_nonneg ename). pose proof (len_nonneg ews). pose proof (len_nonneg rest).
+  set (tl := inner ++ 60 :: 47 :: ename ++ ews ++ 62 :: rest) in *.
+  assert (Hltl : len tl = len inner + 2 + len ename + len ews + 1 + len rest) by (unfold tl; rewrite len_app, !len_cons, len_app, len_app, len_cons; lia).
+  assert (Hstop : tag_stop tl).
+  { right. unfold tl. rewrite Ei. cbn [app]. exists ci, (ri ++ 60 :: 47 :: ename ++ ews ++ 62 :: rest). split; [reflexivity|].
+    destruct Hci as [Hw| ->]; [left; exact Hw|right; left; reflexivity]. }
+  unfold next. cbn [lz rawtag intag lerr ltext lattr lhas]. rewrite Hit, Hraw. cbn [Z.eqb negb].
+  unfold next_content. cbn [lz rawtag intag lerr ltext lattr lhas].
+  assert (Hr' : reads (lz l) (60 :: c :: nm ++ tl)) by (rewrite Ename in Hr; exact Hr).
+  destruct (text_loop_dispatch (lz l) c (nm ++ tl) Hr' Hcl) as [Hdisp|Hno]; [|exfalso; apply Hno; tauto].
+  rewrite Hlet in Hdisp. rewrite Hdisp. cbn [rbind].
+  pose proof (reads_mv _ _ 1 Hr ltac:(rewrite len_cons; pose proof (len_nonneg (name ++ tl)); lia)) as Hr1.
+  change (skipz 1 (60 :: name ++ tl)) with (name ++ tl) in Hr1.
+  unfold shift_starttag. rewrite (starttag_loop_run _ name tl Hr1 Hname Hstop). cbn [rbind].
+  pose proof (reads_mv _ _ (len name) Hr1 ltac:(rewrite len_app; lia)) as Hr2. rewrite skipz_app_len in Hr2.
+  destruct Hr2 as [Hw2 Hrem2].
+  rewrite lexeme_from_spec by (exact Hw2 || (cbn [mv lpos lstart]; lia)). cbn [rbind mv lstart lpos].
+  set (t := mkSl (lstart (lz l) + 1) (lpos (lz l) + 1 + len name - lstart (lz l) - 1)).
+  assert (Ht : t = mkSl (len pre + 1) (len name)) by (unfold t; rewrite Hcl, Hp; f_equal; lia).
+  pose proof (lx_wf_len _ Hw2) as [Hbl _].
+  assert (Hlim : len pre + 1 + len name + len tl <= lx_len (lz l)).
+  { pose proof (len_rem _ Hw2) as Hlr. rewrite Hrem2 in Hlr. cbn [mv lpos] in Hlr. unfold lx_len in *. cbn [mv lbuf] in Hlr. lia. }
+  assert (Hbytes : view_bytes (lbuf (lx_lower (mv (mv (lz l) 1) (len name)) t)) t = map lower name).
+  { unfold lx_lower. cbn [lbuf mv]. rewrite Ht. rewrite view_bytes_lower_view by (cbn [so sn]; pose proof (len_nonneg pre); unfold lx_len in *; cbn [mv lbuf] in Hbl; lia).
+    f_equal. unfold view_bytes. cbn [so sn]. replace (len pre + 1 + len name) with (len pre + (1 + len name)) by lia.
+    rewrite (at_input_slice d l pre _ 1 (1 + len name) Hat) by (rewrite ?len_cons, ?len_app; lia).
+    exact (slice_mid' [60] name tl). }
+  rewrite Hbytes, Hh. cbn [rbind]. rewrite (is_xml_raw h Hxml), Hxml.
+  (* shiftXML *)
+  set (z2 := lx_lower (mv (mv (lz l) 1) (len name)) t).
+  assert (Hr3 : reads z2 tl).
+  { apply reads_lower; [split; assumption|rewrite Ht; cbn; pose proof (len_nonneg pre); lia|rewrite Ht; cbn; lia|].
+    rewrite Ht. cbn [so sn mv lpos]. lia. }
+  assert (Herest : exists c0 r0, ews ++ 62 :: rest = c0 :: r0 /\ is_letter c0 = false).
+  { destruct ews as [|w ews']; [exists 62, rest; split; reflexivity|]. exists w, (ews' ++ 62 :: rest). split; [reflexivity|].
+    inversion Hews as [|? ? Hw _]; subst. unfold is_ws4 in Hw. unfold is_letter.
+    repeat (apply orb_true_iff in Hw; destruct Hw as [Hw|Hw]); apply Z.eqb_eq in Hw; subst w; reflexivity. }
+  unfold shift_xml.
+  rewrite (xml_loop_run h z2 inner ename (ews ++ 62 :: rest) Hr3 Hinner Helet Heh Herest) by (unfold z2, lx_lower; cbn [mv lstart lpos]; lia).
+  cbn [rbind].
+  pose proof (reads_mv _ _ (len inner + 2 + len ename) Hr3 ltac:(lia)) as Hr4.
+  assert (Hsk : skipz (len inner + 2 + len ename) tl = ews ++ 62 :: rest).
+  { unfold tl. replace (inner ++ 60 :: 47 :: ename ++ ews ++ 62 :: rest) with ((inner ++ 60 :: 47 :: ename) ++ ews ++ 62 :: rest)
+      by (rewrite <- app_assoc; cbn [app]; rewrite <- ?app_assoc; reflexivity).
+    replace (len inner + 2 + len ename) with (len (inner ++ 60 :: 47 :: ename)) by (rewrite len_app, !len_cons; lia). apply skipz_app_len. }
+  rewrite Hsk in Hr4.
+  assert (Hews2 : Forall (fun c0 => c0 <> 62 /\ c0 <> 0) ews).
+  { eapply Forall_impl; [|exact Hews]. cbn beta. intros a Ha. unfold is_ws4 in Ha. 
+    repeat (apply orb_true_iff in Ha; destruct Ha as [Ha|Ha]); apply Z.eqb_eq in Ha; subst a; split; discriminate. }
+  rewrite (xml_close_loop_run _ ews rest Hr4 Hews2). cbn [rbind].
+  destruct Hr4 as [Hw4 Hrem4].
+  destruct (rem_mv _ (len ews + 1) Hw4) as [_ Hw5]; [rewrite Hrem4, len_app, len_cons; lia|].
+  rewrite shiftv_spec by exact Hw5. rewrite Hle. cbn [rbind fst snd orb].
+  unfold z2, lx_lower. cbn [mv lbuf lstart lpos so sn skip]. rewrite Ht, Hcl, Hp.
+  replace (len pre + 1 + len name + (len inner + 2 + len ename) + (len ews + 1) - len pre) with n by (unfold n; lia).
+  eexists. split; [reflexivity|]. cbn [ltext lz intag rawtag lerr lbuf]. repeat split.
 Qed.
